@@ -567,6 +567,48 @@ func runC08(c *mon.Ctx) {
 		c.DistinctBytes([]byte(fmt.Sprint("every-length", i)))
 	})
 
+	// text-like meta events that really carry a long text (a lyric sheet, an embedded file): 5 000 bytes to 1.5 MiB
+	c.Each("long-texts", 9, func(i int64, r *mon.Rand) {
+		typ := byte(1 + i)
+		for _, n := range []int{5000, 70_000, 131_072, 196_608, 196_609, 300_000, 1<<20 + 3, 3 << 19} {
+			p := r.Bytes7(n)
+			m := appendVLQ([]byte{0xFF, typ}, uint32(n))
+			m = append(m, p...)
+			c.Count("cat:smf:"+classifySMF(c, m), 1)
+			c.Count("long_text_messages", 1)
+			c.Count("strings_smf", 1)
+			var got string
+			sm := smf.Message(m)
+			ok := false
+			c.Guard("panic:smf.Message", fmt.Sprintf("text meta type %02X with %d bytes of text", typ, n), func() {
+				switch typ {
+				case 1:
+					ok = sm.GetMetaText(&got)
+				case 2:
+					ok = sm.GetMetaCopyright(&got)
+				case 3:
+					ok = sm.GetMetaTrackName(&got)
+				case 4:
+					ok = sm.GetMetaInstrument(&got)
+				case 5:
+					ok = sm.GetMetaLyric(&got)
+				case 6:
+					ok = sm.GetMetaMarker(&got)
+				case 7:
+					ok = sm.GetMetaCuepoint(&got)
+				case 8:
+					ok = sm.GetMetaProgramName(&got)
+				default:
+					ok = sm.GetMetaDevice(&got)
+				}
+			})
+			if !ok || got != string(p) {
+				c.Violation("long-text-accessor", fmt.Sprintf("text meta type %02X with %d bytes of text: the accessor accepts = %v and returns %d bytes", typ, n, ok, len(got)), fmt.Sprintf("type %02X, %d bytes", typ, n), n, len(got))
+			}
+		}
+		c.DistinctBytes([]byte(fmt.Sprint("longtext", i)))
+	})
+
 	// text-like meta events whose declared length is far beyond the data that is there, up to the top of the 32-bit
 	// range (5-byte VLQs, values that wrap when an offset is added): asking for the string form or the text of a
 	// message of a dozen bytes must not allocate the declared length (4 GB for FF 03 8F FF FF FF 7F: a panic
